@@ -440,23 +440,30 @@ class SliceIter(IterBase):
 @dataclass(frozen=True, eq=False)
 class Enumerate(IterBase):
     inner: Any
-    count: int = 0
+    count: Any = 0          # usize, possibly symbolic after a merge
 
     def next(self, ex):
         item, ni = iter_next(ex, self.inner)
-        nxt = Enumerate(ni, self.count + 1)
-        return map_option(item, lambda v: (self.count, v)), nxt
+        nxt = Enumerate(ni, add64(self.count, 1))
+        cnt = self.count
+        return map_option(item, lambda v: (cnt, v)), nxt
 
     def merge_with(self, c, other):
-        if isinstance(other, Enumerate) and other.count == self.count:
-            return Enumerate(ite(c, self.inner, other.inner), self.count)
+        if isinstance(other, Enumerate):
+            inner = ite(c, self.inner, other.inner)
+            if isinstance(inner, Choice):
+                return None
+            return Enumerate(inner, ite(c, self.count, other.count, 64))
         return None
 
     def same_as(self, o):
-        return self.count == o.count and same(self.inner, o.inner)
+        return same(self.count, o.count) and same(self.inner, o.inner)
 
     def merge_key(self):
-        return ('enum', self.count, getattr(self.inner, 'merge_key', lambda: None)())
+        return ('enum', getattr(self.inner, 'merge_key', lambda: None)())
+
+    def shape(self, ex):
+        return ('Enumerate', ex.shape_of(self.inner))
 
 
 @dataclass(frozen=True, eq=False)
